@@ -13,14 +13,14 @@ from neuroglancer_scripts.chunk_encoding import InvalidFormatError
 from neuroglancer_scripts.utils import ceil_div
 
 
-def pad_block(block, block_size):
-    """Pad a block to block_size with its most frequent value"""
+def pad_block(block, block_shape):
+    """Pad a block to block_shape (Z, Y, X) with its most frequent value"""
     unique_vals, unique_counts = np.unique(block, return_counts=True)
     most_frequent_value = unique_vals[np.argmax(unique_counts)]
     return np.pad(block,
                   tuple((0, desired_size - actual_size)
                         for desired_size, actual_size
-                        in zip(block_size, block.shape)),
+                        in zip(block_shape, block.shape)),
                   mode="constant", constant_values=most_frequent_value)
 
 
@@ -68,8 +68,9 @@ def _encode_channel(chunk_channel, block_size):
             y*block_size[1] : (y+1)*block_size[1],
             x*block_size[0] : (x+1)*block_size[0]
         ]
-        if block.shape != block_size:
-            block = pad_block(block, block_size)
+        # block_size is (X, Y, Z) whereas arrays are indexed (Z, Y, X)
+        if block.shape != block_size[::-1]:
+            block = pad_block(block, block_size[::-1])
 
         # TODO optimization: to improve additional compression (gzip), sort the
         # list of unique symbols by decreasing frequency using
@@ -177,7 +178,7 @@ def _decode_channel_into(chunk, channel, buf, block_size):
         lookup_table = np.frombuffer(
             buf[lookup_table_offset:lookup_table_past_end], dtype=chunk.dtype)
         if bits == 0:
-            block = np.empty(block_size, dtype=chunk.dtype)
+            block = np.empty(block_size[::-1], dtype=chunk.dtype)
             try:
                 block[...] = lookup_table[0]
             except IndexError as exc:
